@@ -281,8 +281,10 @@ fn doc_text(doc: usize, docs: &[&str], origin: &str, version: usize, include_nex
     for _ in 0..(doc + version % 3) {
         t.push_str("// pad\n");
     }
-    if include_next && doc + 1 < docs.len() {
-        t.push_str(&format!("include \"{}\"\n", docs[doc + 1].rsplit('/').next().unwrap()));
+    if include_next {
+        // the last document includes the first one again: an include cycle through open documents
+        let next = (doc + 1) % docs.len();
+        t.push_str(&format!("include \"{}\"\n", docs[next].rsplit('/').next().unwrap()));
     }
     t.push_str(&format!("class K_{}_{}_{} {{ int f = 1; }}\n", doc, origin, version));
     if faulty {
@@ -481,9 +483,6 @@ fn action_pool(n_docs: usize) -> Vec<Action> {
     for doc in 0..n_docs {
         for include_next in [false, true] {
             for faulty in [false, true] {
-                if include_next && doc + 1 >= n_docs {
-                    continue;
-                }
                 v.push(Action { doc, include_next, faulty, resend: false });
             }
         }
@@ -594,7 +593,7 @@ impl Check for LspCheck {
     fn rule(&self) -> String {
         match self.mode {
             LMode::Locations => "generated multi-file workspaces (G-prog: root + 1-2 included files with different line structure, half with non-ASCII text, a quarter CRLF, half with a dead use, half with one seeded semantic fault) written to a per-session directory; the real server is driven over JSON-RPC in process (didOpen of the root, logical quiescence through hook counters + barrier requests). For up to 60 (thorough 200) identifier positions (uses and declarations, in every file): textDocument/definition and textDocument/references; for every file: documentSymbol (range and selectionRange of every node), foldingRange (lines), documentLink (range + target URI), inlayHint (positions); publishDiagnostics per URI. Each answer must equal the ide-level result for the same texts with every (file, byte range) converted by refpos USING THE TEXT OF THE FILE THE RANGE BELONGS TO. non-trivial = every workspace; distinct by digest".into(),
-            LMode::Converge => "sessions over documents a.td (-> b.td (-> c.td)); every text version carries uniquely named classes and, if faulty, a uniquely named undefined parent, and includes the next document or not; disk is rewritten with the same text before each message (so C12 cannot interfere). EXHAUSTIVE: all histories of length <= 3 (thorough 4) over the 8-action pool of two documents (6 new texts + a resend of the unchanged text per document), each run twice: checked at every quiescent prefix, and sent as a burst and checked at the end. RANDOM: histories of 4-8 actions over three documents. At each quiescent point (all snapshot tasks ended by hook counters, then barrier requests): for every file of the final workspace the last published diagnostics equal those of a fresh analysis of the reference session state (refpos-converted); every URI ever published that is not in the final workspace has an empty last publication; versions per URI never decrease (checked on the arrival order of the notification stream). non-trivial = every session; distinct by action sequence".into(),
+            LMode::Converge => "sessions over documents a.td (-> b.td (-> c.td)); every text version carries uniquely named classes and, if faulty, a uniquely named undefined parent, and includes the next document or not; disk is rewritten with the same text before each message (so C12 cannot interfere). EXHAUSTIVE: all histories of length <= 3 (thorough 4) over the 10-action pool of two documents (8 new texts - the second document may include the first one back, an include cycle - and a resend of the unchanged text per document), each run twice: checked at every quiescent prefix, and sent as a burst and checked at the end. RANDOM: histories of 4-8 actions over three documents. At each quiescent point (all snapshot tasks ended by hook counters, then barrier requests): for every file of the final workspace the last published diagnostics equal those of a fresh analysis of the reference session state (refpos-converted); every URI ever published that is not in the final workspace has an empty last publication; versions per URI never decrease (checked on the arrival order of the notification stream). non-trivial = every session; distinct by action sequence".into(),
             LMode::Buffers => "same session space as C11, but the disk holds texts the editor never sends (faulty, including the next document, marked _disk_) while the editor sends texts marked _ed_: reference session = disk overlaid by open buffers, root = last touched document. At each quiescent point the undefined-class markers named by the last published diagnostics of workspace files must be exactly those of the reference session, and documentSymbol of every workspace document must list exactly the classes its current reference text declares (an open document reached only through an include must show its editor text; a never-opened one its disk text). non-trivial = every session".into(),
         }
     }
